@@ -211,6 +211,61 @@ pub fn ghist<C: std::fmt::Debug + Clone + 'static>(inner: BoxedStrategy<C>) -> B
     (gprelude(), inner).prop_map(|(prelude, inner)| Hist { prelude, inner }).boxed()
 }
 
+/// A *session*: hundreds to thousands of cases of one property judged one after the other on one
+/// freshly started thread, with unrelated parser calls (`noise`) in between. Every call is judged,
+/// so whatever the library accumulates on a thread - a counter, a cache that fills up and evicts, a
+/// buffer that grows - is met at every fill level, and the session (a value like any other case)
+/// reproduces and shrinks.
+#[derive(Clone, Debug, Serialize, Deserialize)]
+pub struct Session<C> {
+    pub cases: Vec<C>,
+    pub noise: Vec<String>,
+}
+
+pub fn gsession<C: std::fmt::Debug + Clone + 'static>(inner: BoxedStrategy<C>) -> BoxedStrategy<Session<C>> {
+    let cases = prop_oneof![
+        4 => proptest::collection::vec(inner.clone(), 50..400),
+        1 => proptest::collection::vec(inner, 1_000..2_500),
+    ];
+    (cases, proptest::collection::vec(crate::gens::gsoup(), 0..=6)).prop_map(|(cases, noise)| Session { cases, noise }).boxed()
+}
+
+pub fn judge_session<C: Sync>(s: &Session<C>, oracle: fn(&C, &mut Stats) -> Result<(), String>, st: &mut Stats) -> Result<(), String> {
+    let mut spawn_failed = false;
+    let n = s.cases.len();
+    let r = std::thread::scope(|scope| {
+        let handle = std::thread::Builder::new().stack_size(2 << 20).spawn_scoped(scope, || {
+            for (i, c) in s.cases.iter().enumerate() {
+                if !s.noise.is_empty() {
+                    parse_all(&s.noise[i % s.noise.len()]);
+                }
+                oracle(c, st).map_err(|m| format!("case {i} of a session of {n} cases on one thread: {m}"))?;
+                st.class("judged inside a session");
+            }
+            Ok(())
+        });
+        match handle {
+            Ok(handle) => handle.join().map_err(|_| ()),
+            Err(_) => {
+                spawn_failed = true;
+                Err(())
+            },
+        }
+    });
+    if spawn_failed {
+        return Ok(());
+    }
+    match r {
+        Ok(r) => {
+            if r.is_ok() {
+                st.class_if(n >= 1_000, "session of 1000 or more cases");
+            }
+            r
+        },
+        Err(()) => Err(format!("the oracle thread panicked in a session of {n} cases")),
+    }
+}
+
 /// Run the prelude and then the property's oracle on a thread of its own.
 pub fn judge<C: Sync>(h: &Hist<C>, judged_text: &str, oracle: fn(&C, &mut Stats) -> Result<(), String>, st: &mut Stats) -> Result<(), String> {
     let mut spawn_failed = false;
